@@ -42,7 +42,7 @@ func c20Gen(r *core.Rng) c20case {
 	var k c20case
 	nv := r.Range(0, 5)
 	for i := 0; i < nv; i++ {
-		k.Vars = append(k.Vars, [2]string{c20VarNames[i], core.Pick(r, []string{"1.2.3", "spok", "a b", "", "x/y", "a+b", "x&y", "<tag>", "a=b", "50%", "%d items", "v" + fmt.Sprint(r.Intn(100))})})
+		k.Vars = append(k.Vars, [2]string{c20VarNames[i], core.Pick(r, []string{"1.2.3", "spok", "a b", "", "x/y", "a+b", "x&y", "<tag>", "a=b", "50%", "%d items", "é日本", "v" + fmt.Sprint(r.Intn(100))})})
 	}
 	names := append([]string{}, c20TaskNames...)
 	core.Shuffle(r, names)
